@@ -154,23 +154,71 @@ Proof. exact ldap_run. Qed.
 Theorem C04_ldap_persistent : forall fuel, persistent (ldap_prog fuel).
 Proof. exact ldap_persistent. Qed.
 
-(* ---- telnet: the terminal's line discipline (its own reader, not bufio) ---- *)
-(* feeding the segments Read after Read is feeding their concatenation (induction over segments) *)
-Theorem C04_telnet_reads_are_the_stream : forall segs st, tn_feed_segs st segs = tn_feed st (concat segs).
-Proof. exact tn_feed_segs_concat. Qed.
+(* ---- telnet: the terminal's own reader - key decoder, remainder buffer, line discipline ---- *)
+(* The decoder with the remainder, for ALL byte strings: decoding a ++ x is decoding a, keeping
+   what is not decodable yet (an incomplete UTF-8 character, an unfinished escape sequence),
+   and decoding remainder ++ x. *)
+Theorem C04_telnet_decoder_resumes_from_remainder : forall a x st,
+  tn_dec false st (a ++ x) =
+  let '(st1, e1, r1) := tn_dec false st a in
+  let '(st2, e2, r2) := tn_dec false st1 (r1 ++ x) in (st2, e1 ++ e2, r2).
+Proof. intros a x st. exact (tn_dec_app (S (length a)) a (Nat.lt_succ_diag_r _) st x). Qed.
 
+(* ... and so, for ALL byte streams and ALL cut lists (induction over the reads of a segment and
+   over the segments): reading the segments Read after Read (at most 256 - |remainder| bytes
+   each) with the remainder carried over gives the state, events and remainder of the whole
+   stream *)
+Theorem C04_telnet_decoder_segmentation_independent : forall segs st rem,
+  tn_waiting st rem -> tn_conn false st rem segs = tn_dec false st (rem ++ concat segs).
+Proof. exact telnet_decoder_segments. Qed.
+
+(* incomplete UTF-8 prefixes, explicitly: a valid multi-byte character cut at ANY position
+   inside is kept whole in the remainder (no byte of it is consumed) ... *)
+Theorem C04_telnet_incomplete_character_is_kept : forall paste c n,
+  u8_head c = U8Rune (length c) -> 0 < n < length c -> next_key paste (firstn n c) = NMore.
+Proof. exact next_key_prefix_kept. Qed.
+
+(* ... and a complete character is one key carrying exactly its bytes, whatever follows *)
+Theorem C04_telnet_complete_character_is_one_key : forall c x,
+  tn_char c = true -> next_key false (c ++ x) = NKey (KRune c) x.
+Proof. exact next_key_char. Qed.
+
+(* the code (1a2f0db): its events are the reference reading for EVERY segmentation of EVERY byte
+   stream - undecodable bytes included (they are skipped where they stand) *)
 Theorem C04_telnet_full : forall segs, run_model SVC_TELNET segs = reference SVC_TELNET (concat segs).
 Proof. exact telnet_run. Qed.
 
 Theorem C04_telnet_segmentation_invariant : forall s1 s2, concat s1 = concat s2 -> tn_run s1 = tn_run s2.
 Proof. exact telnet_segmentation_invariant. Qed.
 
-(* a command of text bytes (>= 32, not DEL) with CRs anywhere, ended by LF: exactly one
-   session event carrying the text without the CRs *)
-Theorem C04_telnet_text_line_one_event : forall l line,
-  forallb tn_text_or_cr l = true -> length line + length (filter tn_text l) <= TN_MAXLINE ->
-  tn_feed (mkTn TSess line (length line)) (l ++ [LF]) =
-  (mkTn TSess [] 0, [mkEv EV_TN_CMD [line ++ filter tn_text l]]).
+(* About the code BEFORE 1a2f0db only (tn_run_before_1a2f0db, the definition behind signature
+   telnet-undecodable-byte-postpones-input): behind an undecodable byte the input waited for the
+   next Read to return - 'abc\xffdef' + CR LF + 'id' + CR LF in one write was never reported,
+   in two writes it was; on streams without an undecodable byte it was the reference reading *)
+Definition tn_witness : bytes :=
+  [114;111;111;116;13;10;115;101;99;114;101;116;13;10;97;98;99;255;100;101;102;13;10;105;100;13;10]%N.
+Theorem C04_telnet_before_1a2f0db_undecodable_byte_refuted :
+  exists segs1 segs2, concat segs1 = concat segs2 /\
+    tn_run_before_1a2f0db segs1 <> tn_run_before_1a2f0db segs2 /\
+    tn_run_before_1a2f0db segs1 <> reference SVC_TELNET (concat segs1) /\
+    tn_run segs1 = tn_run segs2.
+Proof.
+  exists [tn_witness], [firstn 18 tn_witness; skipn 18 tn_witness].
+  split; [reflexivity|]. split; [vm_compute; discriminate|]. split; [vm_compute; discriminate|].
+  vm_compute. reflexivity.
+Qed.
+
+Theorem C04_telnet_before_1a2f0db_full_on_decodable : forall segs,
+  tn_decodable (concat segs) = true -> tn_run_before_1a2f0db segs = reference SVC_TELNET (concat segs).
+Proof. exact telnet_run_before_1a2f0db. Qed.
+
+(* a command of characters (valid UTF-8 of any length, not U+FFFD, no control characters, no
+   DEL) with CRs anywhere, ended by LF: exactly one session event carrying exactly the
+   characters' bytes - by C04_telnet_full wherever the stream is cut *)
+Theorem C04_telnet_text_line_one_event : forall cs line pasted bad,
+  forallb tn_char_or_cr cs = true -> length line + length (filter tn_char cs) <= TN_MAXLINE ->
+  tn_dec false (mkTn TSess line (length line) false pasted bad) (concat cs ++ [LF]) =
+  (mkTn TSess [] 0 false false bad, [mkEv EV_TN_CMD [concat (line ++ filter tn_char cs)]], []).
 Proof. exact tn_session_line. Qed.
 
 (* ---- datagram services: each datagram is decoded and reported on its own, whatever its length ---- *)
@@ -268,12 +316,23 @@ Example C04_dns_nonvacuous :
 Proof. vm_compute. reflexivity. Qed.
 
 
+(* "root", "s", "café €😀" - cut inside é (after its lead byte), inside € and inside 😀 *)
 Example C04_telnet_nonvacuous :
-  let s := [114;111;111;116;13;10;115;101;99;114;101;116;13;10;117;110;97;109;101;32;45;97;13;10]%N in
-  tn_run [firstn 5 s; skipn 5 s] = tn_run [s] /\
-  fst (tn_run [firstn 5 s; skipn 5 s]) =
-  [mkEv EV_TN_CONNECT []; mkEv EV_TN_AUTH [[114;111;111;116]%N; [115;101;99;114;101;116]%N]; mkEv EV_TN_CMD [[117;110;97;109;101;32;45;97]%N]].
-Proof. vm_compute. split; reflexivity. Qed.
+  let s := [114;111;111;116;13;10;115;13;10;99;97;102;195;169;32;226;130;172;240;159;152;128;13;10]%N in
+  tn_decodable s = true /\
+  tn_run [firstn 13 s; skipn 13 s] = tn_run [s] /\
+  tn_run [firstn 17 s; firstn 3 (skipn 17 s); skipn 20 s] = tn_run [s] /\
+  fst (tn_run [firstn 13 s; skipn 13 s]) =
+  [mkEv EV_TN_CONNECT []; mkEv EV_TN_AUTH [[114;111;111;116]%N; [115]%N];
+   mkEv EV_TN_CMD [[99;97;102;195;169;32;226;130;172;240;159;152;128]%N]] /\
+  next_key false [195]%N = NMore /\ next_key false [240;159;152]%N = NMore /\
+  tn_waiting (mkTn TSess [] 0 false false false) [226;130]%N /\
+  forallb tn_char_or_cr [[99]; [195;169]; [13]; [226;130;172]; [240;159;152;128]]%N = true /\
+  tn_decodable tn_witness = false /\
+  fst (tn_run [tn_witness]) =
+  [mkEv EV_TN_CONNECT []; mkEv EV_TN_AUTH [[114;111;111;116]%N; [115;101;99;114;101;116]%N];
+   mkEv EV_TN_CMD [[97;98;99;100;101;102]%N]; mkEv EV_TN_CMD [[105;100]%N]].
+Proof. vm_compute. repeat split; try reflexivity. right. reflexivity. Qed.
 
 Example C04_ldap_nonvacuous :
   let s := [48;6;2;1;3;80;1;2]%N ++ [48;5;2;1;4;66;0]%N in
@@ -329,9 +388,14 @@ Print Assumptions C04_memcached_udp_each_datagram.
 Print Assumptions C04_dns_each_datagram.
 Print Assumptions C04_ldap_full.
 Print Assumptions C04_ldap_persistent.
-Print Assumptions C04_telnet_reads_are_the_stream.
+Print Assumptions C04_telnet_decoder_resumes_from_remainder.
+Print Assumptions C04_telnet_decoder_segmentation_independent.
+Print Assumptions C04_telnet_incomplete_character_is_kept.
+Print Assumptions C04_telnet_complete_character_is_one_key.
 Print Assumptions C04_telnet_full.
 Print Assumptions C04_telnet_segmentation_invariant.
+Print Assumptions C04_telnet_before_1a2f0db_undecodable_byte_refuted.
+Print Assumptions C04_telnet_before_1a2f0db_full_on_decodable.
 Print Assumptions C04_telnet_text_line_one_event.
 Print Assumptions C04_redis_commands_parsed_exactly.
 Print Assumptions C04_snmp_each_datagram.
